@@ -68,7 +68,7 @@ def cases(seed, count):
 
 
 def main():
-    signal.signal(signal.SIGALRM, diff._on_alarm)
+    signal.signal(signal.SIGVTALRM, diff._on_alarm)
     if sys.argv[1] == 'replay':
         sc = json.load(open(sys.argv[2]))
         sc = sc.get('scenario', sc)
